@@ -421,6 +421,98 @@ def _export_kv2(fn: ast.FunctionDef) -> dict:
     return fields
 
 
+
+def _ref_cond(node: ast.AST, where) -> str:
+    """A condition of the reference if-chain over the atoms is_null / is_stub / uuid in roots."""
+    src = ast.unparse(node)
+    if src in ('child.is_null', 'child is NULL'):
+        return 'CNull'
+    if src in ('child.is_stub', 'isinstance(child, StubElement)'):
+        return 'CStub'
+    if src == 'child.uuid in roots':
+        return 'CRoot'
+    if src == 'child.uuid not in roots':
+        return '(CNot CRoot)'
+    if isinstance(node, ast.BoolOp) and isinstance(node.op, (ast.Or, ast.And)):
+        parts = [_ref_cond(v, where) for v in node.values]
+        op = 'COr' if isinstance(node.op, ast.Or) else 'CAnd'
+        out = parts[-1]
+        for p_ in reversed(parts[:-1]):
+            out = f'({op} {p_} {out})'
+        return out
+    if isinstance(node, ast.UnaryOp) and isinstance(node.op, ast.Not):
+        return f'(CNot {_ref_cond(node.operand, where)})'
+    _fail(f'_export_kv2: unrecognised reference condition `{src}`', where)
+
+
+def _ref_action(body: list[ast.stmt], where) -> str:
+    srcs = [ast.unparse(s) for s in body]
+    def is_write(s, lit):
+        return s.startswith('file.write(') and lit in s
+    if len(srcs) == 1 and is_write(srcs[0], '"element" ""') and '%' not in srcs[0]:
+        return 'ANullRef'
+    if len(srcs) == 1 and is_write(srcs[0], '"element" "%b"') and "% str(child.uuid).encode('ascii')" in srcs[0]:
+        return 'AUuidRef'
+    if srcs and srcs[0].startswith('child._export_kv2(') and all(s == "file.write(b'\\r\\n')" for s in srcs[1:]):
+        return 'AInline'
+    _fail(f'_export_kv2: unrecognised reference branch {srcs}', where)
+
+
+def _kv2_ref_tables(fn: ast.FunctionDef) -> dict:
+    """The two if-chains of _export_kv2 that decide how an element value is written: inside the array loop
+    (`for i, child in enumerate(attr._value)`) and for a scalar attribute."""
+    par = _parents(fn)
+    chains = [n for n in ast.walk(fn) if isinstance(n, ast.If) and not (isinstance(par.get(n), ast.If) and n in par[n].orelse and len(par[n].orelse) == 1
+                                                                        and 'child' in ast.unparse(par[n].test))
+              and any(isinstance(x, ast.Call) and ast.unparse(x.func) == 'child._export_kv2' for x in ast.walk(n))
+              and 'child' in ast.unparse(n.test) and 'isinstance(child, Element)' != ast.unparse(n.test)]
+    out = {}
+    for ch in chains:
+        table = []
+        node = ch
+        while True:
+            table.append((_ref_cond(node.test, node), _ref_action(node.body, node)))
+            if len(node.orelse) == 1 and isinstance(node.orelse[0], ast.If):
+                node = node.orelse[0]
+                continue
+            if not node.orelse:
+                _fail('_export_kv2: reference if-chain without else', node)
+            table.append(('CTrue', _ref_action(node.orelse, node)))
+            break
+        # which site: inside a For over attr._value -> array
+        p_ = ch
+        site = 'scalar'
+        while p_ in par:
+            p_ = par[p_]
+            if isinstance(p_, ast.For) and 'attr._value' in ast.unparse(p_.iter):
+                site = 'array'
+                break
+        if site in out:
+            _fail(f'_export_kv2: two reference if-chains for the {site} site', ch)
+        out[site] = {'table': table, 'line': ch.lineno}
+    if set(out) != {'scalar', 'array'}:
+        _fail(f'_export_kv2: reference if-chains found for {sorted(out)}')
+    return out
+
+
+def _kv2_tokenizer_kwargs(fn: ast.FunctionDef) -> list[tuple[str, bool]]:
+    """parse_kv2: `tok = Tokenizer(file, <bool keywords>)` — the tokenizer options the KV2 parser runs with."""
+    calls = [n for n in ast.walk(fn) if isinstance(n, ast.Call) and ast.unparse(n.func) == 'Tokenizer']
+    if len(calls) != 1:
+        _fail(f'parse_kv2: expected one Tokenizer(...) call, found {len(calls)}')
+    c = calls[0]
+    if [ast.unparse(a) for a in c.args] != ['file']:
+        _fail(f'parse_kv2: unrecognised `{ast.unparse(c)}`', c)
+    out = []
+    known = {'string_bracket', 'string_parens', 'allow_escapes', 'allow_star_comments', 'preserve_comments',
+             'colon_operator', 'plus_operator'}
+    for k in c.keywords:
+        if k.arg not in known or not (isinstance(k.value, ast.Constant) and isinstance(k.value.value, bool)):
+            _fail(f'parse_kv2: unrecognised tokenizer option `{ast.unparse(k)}`', c)
+        out.append((k.arg, k.value.value))
+    return out
+
+
 def _kv2_stubs(cls_fns: list[ast.FunctionDef]) -> tuple[bool, int]:
     """True iff every stub created by the KV2 parser receives the UUID read from the file."""
     decl = None
@@ -574,6 +666,8 @@ def translate() -> tuple[str, dict]:
     pb = _parse_bin(_func(tree, 'Element', 'parse_bin'))
     eb = _export_binary(_func(tree, 'Element', 'export_binary'))
     kv2 = _export_kv2(_func(tree, 'Element', '_export_kv2'))
+    kv2_refs = _kv2_ref_tables(_func(tree, 'Element', '_export_kv2'))
+    kv2_tok_kw = _kv2_tokenizer_kwargs(_func(tree, 'Element', 'parse_kv2'))
     kv2_stub, kv2_stub_line = _kv2_stubs([_func(tree, 'Element', 'parse_kv2'), _func(tree, 'Element', '_parse_kv2_element')])
     kv1 = _kv1(tree)
     # scalar codecs
@@ -603,7 +697,7 @@ def translate() -> tuple[str, dict]:
                 enc_read={k: v[0] for k, v in pb['enc_read'].items()}, enc_write={k: v[0] for k, v in eb['enc_write'].items()},
                 enc_read_lines={k: v[1] for k, v in pb['enc_read'].items()},
                 formats=fmt_rows, time_codec=tcodec, matrix_codec=mcodec, ctor=ctor_rows,
-                kv2_fields=kv2, kv2_stub_keeps_uuid=kv2_stub, kv2_stub_line=kv2_stub_line, kv1=kv1,
+                kv2_fields=kv2, kv2_ref_tables=kv2_refs, kv2_tokenizer_kwargs=kv2_tok_kw, kv2_stub_keeps_uuid=kv2_stub, kv2_stub_line=kv2_stub_line, kv1=kv1,
                 digests={f: ast_digest(_func(tree, 'Element', f)) for f in
                          ('parse_bin', 'export_binary', 'export_kv2', '_export_kv2', 'parse_kv2', '_parse_kv2_element')})
 
@@ -612,7 +706,7 @@ def translate() -> tuple[str, dict]:
     b = lambda x: 'true' if x else 'false'
     lines = [
         '(* GENERATED by translate/c14_dmx.py from /repo/src/srctools/dmx.py. Do not edit. *)',
-        'From Coq Require Import NArith ZArith List String.', 'From SV Require Import Fmt.DmxCodes Fmt.DmxKv1 Fmt.DmxScalar.', 'Import ListNotations.',
+        'From Coq Require Import NArith ZArith List String.', 'From SV Require Import Fmt.DmxCodes Fmt.DmxKv1 Fmt.DmxScalar Fmt.DmxKv2.', 'Import ListNotations.',
         'Open Scope N_scope.',
         'Definition gen_cfg : dmxcfg := {|',
         '  code_table := [' + '; '.join(f'({c}, {i})' for c, i, _ in table) + '];',
@@ -641,6 +735,13 @@ def translate() -> tuple[str, dict]:
         lines.append(f'Definition kv2_{k}_uses_file_codec : bool := {b(kv2[k]["enc_file"])}.')
     lines += [
         f'Definition kv2_stub_keeps_uuid : bool := {b(kv2_stub)}.',
+        '(* how _export_kv2 writes an element value, per site: (condition, action) in if/elif/else order *)',
+        'Definition gen_ref_scalar : rtable := [' + '; '.join(f'({c}, {a})' for c, a in kv2_refs['scalar']['table']) + '].',
+        'Definition gen_ref_array : rtable := [' + '; '.join(f'({c}, {a})' for c, a in kv2_refs['array']['table']) + '].',
+        '(* parse_kv2: keyword arguments of Tokenizer(file, ...) *)',
+        'Definition gen_kv2_tok_kwargs : list (string * bool) := [' + '; '.join(f'("{k}"%string, {b(v)})' for k, v in kv2_tok_kw) + '].',
+        '(* the values of the ValueType enum (attribute type keywords of KeyValues2) *)',
+        'Definition gen_vtnames : list (list N) := [' + '; '.join(_coq_str(k) for k in VT) + '].',
         '(* KeyValues1 bridge constants *)',
         'Definition gen_kv1 : kv1cfg := {|',
         f'  t_block := {_coq_str(kv1["t_block"])};',
